@@ -34,34 +34,22 @@ Proof.
 Qed.
 Print Assumptions C07_string_order.
 
-(* FULL STATEMENT: forall o a b, vc_accepts o a b = vc_spec o a b  (XPTY0004 exactly for the incomparable type pairs).
-   It is false of the chain of isinstance tests: the exact list of deviating cells is computed by the kernel, and the check
-   reproduces each cell on the implementation (known finding C07-value-comparison-type-table). *)
-Theorem C07_type_table_disagreements :
-  vc_disagreements =
+(* XPTY0004 exactly for the incomparable type pairs: for every operator and pair of types the code (the chain of
+   isinstance tests followed by the Python operator) yields a value iff F&O defines the comparison, for the 2.0 / 3.0
+   operator mapping and for the 3.1 one (ordered binaries) *)
+Theorem C07_type_table : forall v31 o a b, vc_defined v31 o a b = vc_spec v31 o a b.
+Proof. intros v31 o a b. destruct v31, o, a, b; reflexivity. Qed.
+Print Assumptions C07_type_table.
+(* before the repairs: strings and untypedAtomic were compared with QNames and xs:gYear values were ordered *)
+Theorem C07_type_table_old_disagreements :
+  vc_old_disagreements =
   [(Eq, TStr, TQName); (Eq, TUntyped, TQName); (Eq, TQName, TStr); (Eq, TQName, TUntyped);
    (Ne, TStr, TQName); (Ne, TUntyped, TQName); (Ne, TQName, TStr); (Ne, TQName, TUntyped);
-   (Lt, TStr, TQName); (Lt, TUntyped, TQName); (Lt, TQName, TStr); (Lt, TQName, TUntyped); (Lt, TQName, TQName);
-   (Lt, TGYear, TGYear); (Lt, THex, THex); (Lt, TB64, TB64);
-   (Le, TStr, TQName); (Le, TUntyped, TQName); (Le, TQName, TStr); (Le, TQName, TUntyped); (Le, TQName, TQName);
-   (Le, TGYear, TGYear); (Le, THex, THex); (Le, TB64, TB64);
-   (Gt, TStr, TQName); (Gt, TUntyped, TQName); (Gt, TQName, TStr); (Gt, TQName, TUntyped); (Gt, TQName, TQName);
-   (Gt, TGYear, TGYear); (Gt, THex, THex); (Gt, TB64, TB64);
-   (Ge, TStr, TQName); (Ge, TUntyped, TQName); (Ge, TQName, TStr); (Ge, TQName, TUntyped); (Ge, TQName, TQName);
-   (Ge, TGYear, TGYear); (Ge, THex, THex); (Ge, TB64, TB64)].
+   (Lt, TGYear, TGYear); (Le, TGYear, TGYear); (Gt, TGYear, TGYear); (Ge, TGYear, TGYear)].
 Proof. vm_compute. reflexivity. Qed.
-Print Assumptions C07_type_table_disagreements.
-(* everywhere else the chain is the F&O table *)
-Theorem C07_type_table_partial : forall o a b, ~ In (o, a, b) vc_disagreements -> vc_accepts o a b = vc_spec o a b.
-Proof.
-  intros o a b H. destruct (Bool.eqb (vc_accepts o a b) (vc_spec o a b)) eqn:E; [apply Bool.eqb_prop; exact E|].
-  exfalso. apply H. unfold vc_disagreements. apply filter_In. split.
-  - apply in_flat_map. exists o. split; [destruct o; cbn; tauto|]. apply in_flat_map. exists a. split; [destruct a; cbn; tauto|].
-    apply in_map_iff. exists b. split; [reflexivity|destruct b; cbn; tauto].
-  - cbn [fst snd]. rewrite E. reflexivity.
-Qed.
-Print Assumptions C07_type_table_partial.
+Print Assumptions C07_type_table_old_disagreements.
 
 Example C07_nonvacuous : ebv [IStr 0] = EBV false /\ ebv [INode; IOther] = EBV true /\ ebv [INum false; INum false] = FORG0006 /\
-  vc_accepts Lt TInt TDbl = true /\ vc_accepts Eq TBool TInt = false /\ general Z Z.ltb [5; 1]%Z [0; 3]%Z = true.
+  vc_defined true Lt TInt TDbl = true /\ vc_defined false Eq TBool TInt = false /\ vc_defined true Lt THex THex = true /\
+  vc_defined false Lt THex THex = false /\ general Z Z.ltb [5; 1]%Z [0; 3]%Z = true.
 Proof. vm_compute. repeat split; reflexivity. Qed.
